@@ -60,14 +60,30 @@ def gen_session(rng, tier):
         if f == "quantile":
             spec["prob"] = rng.choice((0.0, 0.25, 0.5, 0.75, 1.0))
         aggs.append(spec)
+    # a third cube over a DIFFERENT number of rows: only row-free aggregates (unweighted / scalar-weighted
+    # count) can be re-used on it
+    n2 = rng.choice([m for m in (0, 1, 2, 3, 4, 6, 9, 13, 20) if m != n])
+    dims_c, ishape_c = cubes.gen_dims(rng, n2, 1, 4)
+    if not any(a["f"] == "count" and (a["weights"] is None or "scalar" in a["weights"]) for a in aggs) and rng.random() < 0.7:
+        aggs.append({"f": "count", "ignore_missing": rng.random() < 0.5, "rma": cubes.gen_rma(rng), "arr": None,
+                     "weights": None if rng.random() < 0.7 else {"scalar": 2.0}})
     return {"cube": kind, "N": n, "dimsA": dims_a, "ishapeA": ishape_a, "dimsB": dims_b, "ishapeB": ishape_b,
+            "N2": n2, "dimsC": dims_c, "ishapeC": ishape_c,
             "vars": variables, "wvars": weights, "aggs": aggs,
             "xdtype": rng.choice(("int64", "int32", "uint8", "int16"))}
 
 
 def workload_of(sess, which):
-    return {"cube": sess["cube"], "N": sess["N"], "dims": sess["dims" + which], "ishape": sess["ishape" + which],
-            "xdtype": sess.get("xdtype", "int64"), "aggs": [], "engage": "flag"}
+    return {"cube": sess["cube"], "N": sess["N2"] if which == "C" else sess["N"], "dims": sess["dims" + which],
+            "ishape": sess["ishape" + which], "xdtype": sess.get("xdtype", "int64"), "aggs": [], "engage": "flag"}
+
+
+def cubes_of(sess):
+    return "ABC" if "dimsC" in sess else "AB"
+
+
+def row_free(spec):
+    return spec["f"] == "count" and (spec.get("weights") is None or "scalar" in spec["weights"])
 
 
 def gen_ops(rng, sess, usable, tier):
@@ -75,11 +91,10 @@ def gen_ops(rng, sess, usable, tier):
     ops = []
     for i in range(n_ops):
         r = rng.random()
-        cube = rng.choice("AB")
-        good = usable[cube]
-        if not good:
+        cube = rng.choice([c for c in "ABC" if usable.get(c)] or ["A"])
+        if cube == "C" and rng.random() < 0.4 and (usable["A"] or usable["B"]):
             cube = "A" if usable["A"] else "B"
-            good = usable[cube]
+        good = usable[cube]
         if r < 0.55 or i == n_ops - 1:
             sub = rng.sample(good, rng.randint(1, len(good)))
             mode = rng.choices(("serial", "pooled", "interrupt-serial", "interrupt-pooled"), (5, 4, 1, 1))[0]
@@ -107,7 +122,7 @@ def gen_ops(rng, sess, usable, tier):
 
 
 def gen_index_op(rng, sess):
-    which = rng.choice("AB")
+    which = rng.choice(cubes_of(sess))
     dims = sess["dims" + which]
     k = rng.randrange(len(dims))
     shape = dims[k]["shape"]
@@ -147,11 +162,12 @@ class PuritySession:
         self.log = log
         self.kind = sess["cube"]
         # the shared objects
-        self.w = {"A": workload_of(sess, "A"), "B": workload_of(sess, "B")}
-        self.dims = {c: cubes.build_dims(self.w[c]) for c in "AB"}
+        self.names = cubes_of(sess)
+        self.w = {c: workload_of(sess, c) for c in self.names}
+        self.dims = {c: cubes.build_dims(self.w[c]) for c in self.names}
         self.vars = [cubes.build_var(v) for v in sess["vars"]]
         self.wvars = [cubes.build_var(v) for v in sess["wvars"]]
-        self.cube = {c: cubes.build_cube(self.w[c], self.dims[c]) for c in "AB"}
+        self.cube = {c: cubes.build_cube(self.w[c], self.dims[c]) for c in self.names}
         self.aggs = [self._agg(spec, shared=True) for spec in sess["aggs"]]
         self.refs = {}
         self.earlier = []
@@ -163,7 +179,7 @@ class PuritySession:
             self.stats.count(key, n)
 
     def _snapshot(self):
-        return model.snapshot([self.dims["A"], self.dims["B"], self.vars, self.wvars])
+        return model.snapshot([self.dims["A"], self.dims["B"], self.vars, self.wvars, self.dims.get("C", [])])
 
     def _args(self, spec, shared):
         def get(ref, pool, specs):
@@ -185,6 +201,9 @@ class PuritySession:
         """Aggregate i evaluated ALONE on fresh copies with a fresh object (None if unsupported)."""
         key = (cube, i)
         if key not in self.refs:
+            if cube == "C" and not row_free(self.s["aggs"][i]):
+                self.refs[key] = None  # a variable with N rows cannot be crossed with a cube over N2 rows
+                return None
             try:
                 fresh_cube = cubes.build_cube(self.w[cube])
                 fresh_cube.parallel = False
@@ -196,8 +215,9 @@ class PuritySession:
 
     def usable(self):
         out = {}
-        for c in "AB":
+        for c in self.names:
             out[c] = [i for i in range(len(self.aggs)) if self.aggs[i] is not None and self.reference(c, i) is not None]
+        out.setdefault("C", [])
         return out
 
     # ---------------------------------------------------------------- oracle pieces
@@ -207,7 +227,8 @@ class PuritySession:
             for label, now, then in (("dims of cube A", model.snapshot(self.dims["A"]), self.snap[1][0]),
                                      ("dims of cube B", model.snapshot(self.dims["B"]), self.snap[1][1]),
                                      ("fact variables", model.snapshot(self.vars), self.snap[1][2]),
-                                     ("weight variables", model.snapshot(self.wvars), self.snap[1][3])):
+                                     ("weight variables", model.snapshot(self.wvars), self.snap[1][3]),
+                                     ("dims of cube C", model.snapshot(self.dims.get("C", [])), self.snap[1][4])):
                 if now != then:
                     names.append(label)
             raise Violation(PROP, "argument-mutated", where, "%s changed: %s" % (where, ", ".join(names) or "shared arguments"))
@@ -245,7 +266,11 @@ class PuritySession:
         idxs = [i for i in op["aggs"] if i < len(self.aggs) and self.aggs[i] is not None and self.reference(c, i) is not None]
         if not idxs:
             return None
+        if c not in self.cube:
+            return None
         cube = self.cube[c]
+        if c == "C":
+            self.count("probe_aggregate_reused_on_cube_with_other_row_count")
         funcs = [self.aggs[i] for i in idxs]
         mode = op["mode"]
         where = "calculate:" + mode
@@ -304,7 +329,7 @@ class PuritySession:
 
     def do_shortcut(self, op):
         c, i = op["cube"], op["agg"]
-        if i >= len(self.aggs) or self.aggs[i] is None or self.reference(c, i) is None:
+        if c not in self.cube or i >= len(self.aggs) or self.aggs[i] is None or self.reference(c, i) is None:
             return None
         spec = self.s["aggs"][i]
         arr, weights = self._args(spec, shared=True)
@@ -334,6 +359,8 @@ class PuritySession:
 
     def do_newcube(self, op):
         c = op["cube"]
+        if c not in self.cube:
+            return None
         self.cube[c] = cubes.build_cube(self.w[c], self.dims[c])
         return "newcube"
 
@@ -342,6 +369,8 @@ class PuritySession:
             return None
         from catii.iindexes import column_stack
 
+        if op["which"] not in self.dims:
+            return None
         dims = self.dims[op["which"]]
         if op["dim"] >= len(dims):
             return None
@@ -418,10 +447,12 @@ def run(base_seed, idx, stats, opts):
     log = core.EventLog()
     ps = PuritySession(sess, stats, log)
     usable = ps.usable()
-    if not usable["A"] and not usable["B"]:
+    if not usable["A"] and not usable["B"] and not usable["C"]:
         stats.count("discarded_unsupported")
         return "discarded"
     stats.count("aggregate_specs_unsupported", sum(1 for c in "AB" for i in range(len(ps.aggs)) if i not in usable[c]))
+    if usable["C"]:
+        stats.count("sessions_with_cube_over_other_row_count")
     ops = gen_ops(rng, sess, usable, tier)
     done = []
     try:
